@@ -28,14 +28,24 @@ using sim::Json;
 using refq::cplx;
 using refq::SV;
 
+#ifndef VERIF_FLAVOUR
+#define VERIF_FLAVOUR "plain"
+#endif
+
 // stub: the updater is not part of this engine
 namespace bloch::update {
 void checkForUpdatesIfDue(const std::string&) {}
 bool performSelfUpdate(const std::string&, const std::string&) { return false; }
 }  // namespace bloch::update
 
+extern "C" {
+__attribute__((used)) const char* __asan_default_options() { return "exitcode=77:detect_leaks=0:abort_on_error=0"; }
+__attribute__((used)) const char* __tsan_default_options() { return "exitcode=66:halt_on_error=1:report_signal_unsafe=0"; }
+}
+
 namespace {
 
+bool g_bigReg = false;   // --mode bigreg: simulator-level histories on 14-16 qubit registers only (run under TSan)
 rngs::Provider g_rng;
 int g_orientation = -1;   // reset branch orientation of the code under test (calibrated at start-up)
 
@@ -84,6 +94,7 @@ std::vector<SimOp> genSimHistory(sim::Rng& g, const std::string& property) {
     int len = g.range(3, 40);
     static const double angles[] = {0, M_PI / 2, -M_PI / 2, M_PI, -M_PI, 2 * M_PI, -2 * M_PI, 1e-9, 1e3, 0.3, 1.1, 2.7, -4.4, 5.9, M_PI / 3, 4 * M_PI, 1e-4, 3e-4, 5e-5, -2e-4, 1e-3, 6e-4, 1e-5, 3e-6};
     int maxQ = g.chance(0.08) ? 12 : 7;
+    if (g_bigReg) { maxQ = 14 + (int)g.below(3); len = maxQ + 8 + (int)g.below(10); }
     if (g.chance(0.002)) { maxQ = 17; len = std::min(len, 22); }   // registers large enough for size-dependent code paths   // a few large registers (chunked loops, strides above bit 10)
     double pReset = property == "C04" ? 0.25 : 0.1;
     double pMeasure = property == "C02" ? 0.25 : 0.12;
@@ -93,7 +104,7 @@ std::vector<SimOp> genSimHistory(sim::Rng& g, const std::string& property) {
         std::vector<int> act;
         for (int q = 0; q < n; ++q)
             if (!measured[(size_t)q]) act.push_back(q);
-        if (n == 0 || (u < (maxQ > 7 ? 0.3 : 0.12) && n < maxQ)) { o.kind = 0; ops.push_back(o); measured.push_back(false); ++n; continue; }
+        if (n == 0 || (g_bigReg && n < maxQ) || (u < (maxQ > 7 ? 0.3 : 0.12) && n < maxQ)) { o.kind = 0; ops.push_back(o); measured.push_back(false); ++n; continue; }
         if (property == "C06" && g.chance(0.08)) {
             std::vector<int> ms;
             for (int q = 0; q < n; ++q)
@@ -979,7 +990,7 @@ std::string progClass(const qh::Plan& p, const std::string& property, uint64_t s
 
 void runOne(const sim::Options& opt, uint64_t run, sim::RunReport& rep) {
     sim::Rng gen(opt.seed, "gen", run), knob(opt.seed, "knob", run);
-    bool simLevel = (run % 3) == 0;
+    bool simLevel = (run % 3) == 0 || g_bigReg;
     const std::string& property = opt.property;
     rep.count("runs");
     if (simLevel) {
@@ -1236,6 +1247,7 @@ int doReplay(const sim::Options& opt) {
 int main(int argc, char** argv) {
     sim::Options opt = sim::parseOptions(argc, argv);
     if (opt.property.empty()) opt.property = "C02";
+    if (opt.flavour == "plain") opt.flavour = VERIF_FLAVOUR;
     g_scratch = std::string(getenv("TMPDIR") ? getenv("TMPDIR") : "/tmp") + "/blochsim.qhist." + std::to_string(getpid());
     calibrateOrientation();
     if (!opt.replay.empty()) {
@@ -1245,7 +1257,9 @@ int main(int argc, char** argv) {
         if (system(cmd.c_str())) {}
         return rc;
     }
+    g_bigReg = opt.mode == "bigreg";
     bool thorough = opt.tier == "thorough";
+    if (g_bigReg) { if (opt.workers > 8) opt.workers = 8; if (opt.runs <= 0) opt.runs = thorough ? 6000 : 400; }
     uint64_t nRuns = thorough ? 8000000 : (opt.property == "C05" ? 120000 : 200000);
     double cap = thorough ? 480 : 45;
     if (opt.runs > 0) nRuns = (uint64_t)opt.runs;
@@ -1273,15 +1287,43 @@ int main(int argc, char** argv) {
         if (system(cmd.c_str())) {}
     }
     sim::CheckSummary S = sim::gateViolations(opt, R);
+    std::set<std::string> crashSeen;
     for (auto& c : R.crashes) {
-        fprintf(stderr, "HARNESS: worker died in run %llu: %s\n%s\n", (unsigned long long)c.run, sim::classifyCrash(c.status, c.stderrTail).c_str(), c.stderrTail.substr(0, 1500).c_str());
-        if (S.exitCode == 0) S.exitCode = 2;
+        std::string cls = sim::classifyCrash(c.status, c.stderrTail);
+        bool confirmed = false;
+        if ((c.run % 3) == 0 || g_bigReg) {
+            // a simulator-level history: regenerate it from (seed, run) and confirm the crash in a fresh process
+            sim::Rng gen(opt.seed, "gen", c.run);
+            std::vector<SimOp> ops = genSimHistory(gen, opt.property);
+            Json plan = planJson(true, ops, qh::Plan{});
+            plan.set("rng_seed", Json((unsigned long long)opt.seed)).set("rng_run", Json((unsigned long long)c.run)).set("log_on", opt.property == "C05" || c.run % 4 != 3);
+            std::string path = sim::replayPath(opt, c.run);
+            Json f = Json::object();
+            f.set("engine_property", opt.property).set("seed", Json((unsigned long long)opt.seed)).set("run", Json((unsigned long long)c.run)).set("flavour", opt.flavour).set("mode", opt.mode)
+                .set("violation", Json::object().set("class", cls).set("signature", "sim:" + cls).set("detail", c.stderrTail.substr(0, 3000))).set("plan", plan);
+            sim::writeFile(path, f.dump(1) + "\n");
+            sim::ChildResult r = sim::execReplay(opt, path);
+            if (sim::classifyCrash(r.status, r.err) == cls && !cls.empty()) {
+                confirmed = true;
+                if (!crashSeen.count(cls) && S.violations < 5) {
+                    crashSeen.insert(cls);
+                    S.violations++;
+                    S.lines.push_back("VIOLATION property=" + opt.property + " replay=" + path);
+                    S.lines.push_back("  class=" + cls + " signature=sim:" + cls);
+                    S.exitCode = 1;
+                }
+            }
+        }
+        if (!confirmed) {
+            fprintf(stderr, "HARNESS: worker died in run %llu: %s\n%s\n", (unsigned long long)c.run, cls.c_str(), c.stderrTail.substr(0, 1500).c_str());
+            if (S.exitCode == 0) S.exitCode = 2;
+        }
     }
     // vacuity guard
     std::vector<std::string> mandatory = {"rng.words_drawn", "sim.measures", "sim.resets", "sim.entangled_resets", "sim.boundary_draws", "prog.boundaries_checked", "prog.reuse_events", "prog.genuine_resets", "prog.boundary_draws"};
     if (opt.property == "C06") { mandatory.push_back("prog.ended_with_runtime_error"); mandatory.push_back("sim.guard_probes"); }
     if (opt.property == "C05") mandatory.push_back("cli.qasm_file_checks");
-    if (R.runs >= 1000) {
+    if (R.runs >= 1000 && !g_bigReg) {
         for (auto& m : mandatory)
             if (R.counters[m] == 0) { fprintf(stderr, "HARNESS: mandatory reach counter %s is zero\n", m.c_str()); if (S.exitCode == 0) S.exitCode = 2; }
     }
@@ -1298,6 +1340,7 @@ int main(int argc, char** argv) {
                                 .set("qubit_index_reuse", Json((unsigned long long)R.counters["prog.reuse_events"]))
                                 .set("guard_probes", Json((unsigned long long)R.counters["sim.guard_probes"]))
                                 .set("runs_ended_by_guard_error", Json((unsigned long long)R.counters["prog.ended_with_runtime_error"])));
+    cov.set("flavour", opt.flavour + (g_bigReg ? " (14-16 qubit simulator-level histories only)" : ""));
     cov.set("ambiguous_skipped", Json((unsigned long long)(R.counters["sim.ambiguous_skipped"] + R.counters["prog.ambiguous_skipped"])));
     cov.set("reset_orientation_calibrated", g_orientation);
     cov.set("components", Json::object()
